@@ -148,3 +148,8 @@ Definition store_consistent (pids : list (N * N * list N)) (keys : list (N * N *
   nodupb (fun a b => (fst (fst a) =? fst (fst b)) && list_eqb (snd a) (snd b)) pids &&
   nodupb (fun a b => (fst (fst a) =? fst (fst b)) && (snd (fst a) =? snd (fst b)) && (snd a =? snd b)) keys &&
   forallb (fun t => snd (fst t) =? snd t) idx.
+
+(* ---------------------------------------------------------------- GroupSizeCalculator *)
+(* every variable-size top-level group has at least one token per block *)
+Definition gtok_ok (fs : list fd) : bool :=
+  forallb (fun g => fixed_size g || negb (fst (block_tokens g) =? 0)) (filter is_group fs).
